@@ -948,9 +948,6 @@ class Fxp():
             self.real = self.astype(complex).real
             self.imag = self.astype(complex).imag
 
-        # update dtype
-        self._update_dtype()
-
         # vdtype
         if raw:
             if vdtype is not None:
@@ -959,6 +956,9 @@ class Fxp():
             self.vdtype = original_vdtype
         if self.vdtype is not None and self.vdtype != complex and np.issubdtype(self.vdtype, np.integer) and self.n_frac > 0:
             self.vdtype = float  # change to float type if Fxp has fractional part (also when a raw value is set)
+
+        # update dtype (once the type of the value is settled: the complex suffix depends on it)
+        self._update_dtype()
 
         # check inaccuracy
         if not np.equal(val, new_val/conv_factor).all() :
@@ -1553,6 +1553,7 @@ class Fxp():
         # return Fxp(self.val[index], like=self, raw=True)
         y = Fxp(like=self)
         y.val = self.val[index]
+        y._update_dtype()   # (the element(s) can be complex while the empty object created above is not)
         return y
 
     def __setitem__(self, index, value):
